@@ -266,6 +266,7 @@ pub fn eval_au<F: FnMut(&GraphColoredVertices, &str)>(
 }
 
 /// Evaluate the EW operator using the AU computation.
+/// This is possible because `E[phi1 W phi2] == not A[(not phi2) U (not phi1 & not phi2)]`.
 pub fn eval_ew<F: FnMut(&GraphColoredVertices, &str)>(
     graph: &SymbolicAsyncGraph,
     phi1: &GraphColoredVertices,
@@ -277,8 +278,8 @@ pub fn eval_ew<F: FnMut(&GraphColoredVertices, &str)>(
         graph,
         &eval_au(
             graph,
-            &eval_neg(graph, phi1),
             &eval_neg(graph, phi2),
+            &eval_neg(graph, phi1).intersect(&eval_neg(graph, phi2)),
             self_loop_states,
             progress_callback,
         ),
@@ -286,6 +287,7 @@ pub fn eval_ew<F: FnMut(&GraphColoredVertices, &str)>(
 }
 
 /// Evaluate the AW operator using the EU computation.
+/// This is possible because `A[phi1 W phi2] == not E[(not phi2) U (not phi1 & not phi2)]`.
 pub fn eval_aw<F: FnMut(&GraphColoredVertices, &str)>(
     graph: &SymbolicAsyncGraph,
     phi1: &GraphColoredVertices,
@@ -296,8 +298,8 @@ pub fn eval_aw<F: FnMut(&GraphColoredVertices, &str)>(
         graph,
         &eval_eu_saturated(
             graph,
-            &eval_neg(graph, phi1),
             &eval_neg(graph, phi2),
+            &eval_neg(graph, phi1).intersect(&eval_neg(graph, phi2)),
             progress_callback,
         ),
     )
